@@ -1367,17 +1367,21 @@ class _AddWhereOut:
         if "KF-ufunc-out-dtype" in exclusions._open_ids():
             # listed finding (C11): out= of another dtype than the ufunc's natural result mis-advertises the dtype
             cands = [j for j in cands if vals[j].dtype == v.dtype]
-        return {"op": "add_where_out", "args": [i, D_.choice(cands)], "k": D_.choice([0, 1, 3]), "mod": D_.choice([2, 3])}
+        st_ = {"op": "add_where_out", "args": [i, D_.choice(cands)], "k": D_.choice([0, 1, 3]), "mod": D_.choice([2, 3])}
+        if v.ndim >= 2 and D_.chance(1, 3):
+            st_["bmask"] = True  # a mask that is BROADCAST against out= along the leading axes (one row of blocks)
+        return st_
 
     @staticmethod
-    def _mask(a):
-        return None
+    def _mask(s, shape):
+        if s.get("bmask"):
+            shape = (1,) * (len(shape) - 1) + (shape[-1],)
+        return (np.arange(int(np.prod(shape))).reshape(shape) % s["mod"]) == 0
 
     @staticmethod
     def np(s, a):
         o = a[0].copy()
-        m = (np.arange(o.size).reshape(o.shape) % s["mod"]) == 0
-        np.add(a[1], s["k"], out=o, where=m)
+        np.add(a[1], s["k"], out=o, where=_AddWhereOut._mask(s, o.shape))
         return o
 
     @staticmethod
@@ -1385,8 +1389,9 @@ class _AddWhereOut:
         import dask_array as da
 
         o = a[0].copy()
-        m = da.from_array((np.arange(int(np.prod(o.shape))).reshape(o.shape) % s["mod"]) == 0, chunks=o.chunks)
-        da.add(a[1], s["k"], out=o, where=m)
+        m = _AddWhereOut._mask(s, o.shape)
+        chunks = o.chunks if not s.get("bmask") else ((1,),) * (o.ndim - 1) + (o.chunks[-1],)
+        da.add(a[1], s["k"], out=o, where=da.from_array(m, chunks=chunks))
         return o
 
 
